@@ -148,7 +148,8 @@ where
                     )
                 }
             }
-            GenericAction::Panic(_, msg) => write!(f, "(panic \"{msg}\")"),
+            // Print the message like any other string literal so quotes and backslashes re-parse.
+            GenericAction::Panic(_, msg) => write!(f, "(panic {})", Literal::String(msg.clone())),
             GenericAction::Expr(_, e) => write!(f, "{e}"),
         }
     }
